@@ -8,3 +8,4 @@ package keystore
 //@ func (*KeystoreManager).CurrentKeystore
 //@   trusted
 //@   pure
+//@   ensures result == ghostOf[*AddrManager]("curKS", km)
